@@ -9,6 +9,7 @@ import IslaVerif.Driver.C17
 import IslaVerif.Driver.C15
 import IslaVerif.Driver.C05
 import IslaVerif.Driver.C11
+import IslaVerif.Driver.Sem
 namespace IslaVerif.Driver
 open IslaVerif
 
@@ -24,6 +25,7 @@ def dispatch : Sexp → Sexp
   | .list (.atom "c15" :: rest) => C15.handle rest
   | .list (.atom "c05" :: rest) => C05.handle rest
   | .list (.atom "c11" :: rest) => C11.handle rest
+  | .list (.atom "sem" :: rest) => SemD.handle rest
   | _ => .atom "bad-request"
 
 end IslaVerif.Driver
